@@ -35,7 +35,7 @@ var c2ErrorKinds = []string{
 	"error", "wraperror", "defererror", "defererror-with-followup", "defererror-nested", "syntax-openbrace", "syntax-straytoken", "syntax-string", "syntax-comment", "syntax-nul", "syntax-package",
 	"syntax-lateimport", "syntax-closebrace", "syntax-stmt", "skip", "ignore", "wrapskip", "wrapignore", "panic-free-nothing",
 	// a real error while other types of the same package signal ErrIgnore; unparseable text behind a //line directive
-	"error+ignore-elsewhere", "wraperror+wrapignore-elsewhere", "syntax-linedirective", "syntax-linecomment",
+	"error+ignore-elsewhere", "wraperror+wrapignore-elsewhere", "syntax-linedirective", "syntax-linecomment", "syntax-after-a-very-long-line",
 }
 
 var c2Syntax = map[string]string{
@@ -51,6 +51,8 @@ var c2Syntax = map[string]string{
 	// positions behind a line directive are reported in another file
 	"syntax-linedirective": "\n//line tmpl$G.y:1\nfunc broken$G$T() {\n",
 	"syntax-linecomment":   "\n/*line other$G.y:2:1*/ var broken$G$T = = 1\n",
+	// a line of more than 64 KiB ahead of the syntax error (buffer limits of line-oriented readers)
+	"syntax-after-a-very-long-line": "\nvar long$G$T = \"" + strings.Repeat("x", 70000) + "\"\n\nfunc broken$G$T() {\n",
 }
 
 func genC02(t *rapid.T) c2Case {
